@@ -140,7 +140,7 @@ impl LouvCase {
             perms.push_str(&format!(" {}", l));
             for x in v { perms.push_str(&format!(" {}", x)); }
         }
-        format!("louv {} {} {} {} {} {}", self.g.tokens(), self.weighted as u8, self.res.0, self.res.1, self.seed, perms)
+        format!("louv {} {} {} {} {} {}", self.g.tokens(), self.weighted as u8, self.res.0, self.res.1, self.seed as i64, perms)
     }
     pub fn parse(t: &mut Toks) -> LouvCase {
         let g = GraphCase::parse(t);
@@ -270,9 +270,17 @@ pub fn gen_louv(rng: &mut Rng, profile: &str, size: usize) -> LouvCase {
         g = GraphCase { specs: crate::store::Specs { directed: true, multi: false, self_loops: false, dedupe: 1, missing: 0, slfalse: 1 }, nodes, edges };
         res = *rng.pick(&[(6i64, 5u32), (6, 5), (11, 10), (5, 4), (3, 2), (7, 4), (2, 1), (1, 1)]);
     }
-    LouvCase { g, weighted, res, seed: rng.below(1000) }
+    LouvCase { g, weighted, res, seed: special_seed(rng, 1000) }
 }
 
 pub fn candidates_louv(c: &LouvCase) -> Vec<String> {
     c.g.candidates().into_iter().filter(|g| !g.edges.is_empty()).map(|g| LouvCase { g, ..c.clone() }.request()).collect()
+}
+
+
+/// a seed: mostly small, now and then one of the boundary values of u64 / i64 / u32 (seeds travel as signed tokens)
+pub fn special_seed(rng: &mut Rng, below: u64) -> u64 {
+    if rng.chance(8) {
+        *rng.pick(&[0u64, 1, u64::MAX, u64::MAX - 1, u64::MAX - 2, i64::MAX as u64, i64::MAX as u64 + 1, u32::MAX as u64, u32::MAX as u64 + 1, 1 << 63])
+    } else { rng.below(below) }
 }
